@@ -395,7 +395,46 @@ def phase_leave(args):
                                       f"expected {want}", None))
         finally:
             loop.dispose()
-    return dict(phase="leave", states=4, transitions=n, viols=viols[:20], nviols=len(viols))
+    # a transmission to one subscriber fails in the transport (the datagram is lost like on the network): what the other
+    # subscriber and later rounds get is made of their own messages only, numbered per destination
+    for fail_on in (1, 2, 3):
+        loop = VLoop().install()
+        try:
+            s, eg = make_service(loop)
+            for e in range(3):
+                eg.values[e + 1] = bytes([e])
+            epa = hdr.IPv4EndpointOption(ipaddress.IPv4Address("192.0.2.41"), hdr.L4Protocols.UDP, 3041)
+            epb = hdr.IPv4EndpointOption(ipaddress.IPv4Address("192.0.2.42"), hdr.L4Protocols.UDP, 3042)
+            real = s.transport.sendto
+            calls = [0]
+
+            def flaky(data, addr=None):
+                calls[0] += 1
+                if calls[0] == fail_on:
+                    raise OSError(101, "network unreachable")
+                return real(data, addr)
+
+            s.transport.sendto = flaky
+            eg.subscribe(epa)
+            loop.settle()
+            eg.subscribe(epb)
+            loop.settle()
+            for _ in range(3):
+                eg.notify_once([1, 2])
+                loop.settle()
+            last = {}
+            for _, _, data, addr in s.transport.sent:
+                msgs, err, _ = refcodec.dec_someip_all(data)
+                n += len(msgs)
+                ids = [m["session"] for m in msgs]
+                if err or ids != list(range(ids[0], ids[0] + len(ids))) or ids[0] <= last.get(addr, 0) or len(msgs) not in (2, 3):
+                    viols.append(("notify-sequence", "foreign-or-repeated-ids-after-send-error", f"transport error on send no. {fail_on}: "
+                                  f"datagram to {addr} carries ids {ids} (events {[m['method'] & 0x7FFF for m in msgs]}), "
+                                  f"previous id for it {last.get(addr, 0)}", None))
+                last[addr] = ids[-1] if ids else last.get(addr, 0)
+        finally:
+            loop.dispose()
+    return dict(phase="leave", states=7, transitions=n, viols=viols[:20], nviols=len(viols))
 
 
 def phase_reentrant(args):
